@@ -6,6 +6,7 @@ import (
 	"go.pennock.tech/tabular/html"
 	"go.pennock.tech/tabular/json"
 	"go.pennock.tech/tabular/markdown"
+	"go.pennock.tech/tabular/properties/align"
 	"go.pennock.tech/tabular/texttable"
 	"go.pennock.tech/tabular/texttable/decoration"
 )
@@ -19,7 +20,9 @@ const vfWide = "0123456789012345678901234567890123456789012345678901234567890123
 // 11 text table with a decoration looked up in the registry and then customised by its owner (a '~' rule),
 // 12 text table with that same registered decoration as it is, 13 text table whose owner registers its
 // own decoration under a name at run time and then selects it by that name, 14 and 15 a table annotated
-// by its owner with properties under keys of the owner's own non-pointer types (a string type, a struct)
+// by its owner with properties under keys of the owner's own non-pointer types (a string type, a struct),
+// 16 a markdown table with a default alignment on column 0, 17 a text table asked for a decoration name in
+// the wrong letter case
 type vfOwnStrKey string
 
 type vfOwnStructKey struct{ a, b int }
@@ -45,6 +48,10 @@ func vfScenario(sc int, a string) (string, bool) {
 		t.SetProperty(vfOwnStructKey{1, 2}, true)
 		t.Column(1).SetProperty(vfOwnStructKey{3, 4}, false)
 	}
+	if sc == 16 {
+		// a markdown table whose only alignment is the default on column 0
+		t.Column(0).SetProperty(align.PropertyType, align.Right)
+	}
 	if sc == 8 {
 		t.AddRowItems(vfWide, "w")
 	}
@@ -64,8 +71,12 @@ func vfScenario(sc int, a string) (string, bool) {
 		out, err = csv.Render(t)
 	case 1, 9:
 		out, err = json.Render(t)
-	case 2:
+	case 2, 16:
 		out, err = markdown.Render(t)
+	case 17: // a decoration name in another letter case than the registered one: unknown, refused
+		tt := texttable.Wrap(t)
+		tt.SetDecorationNamed("UTF8-Light")
+		out, err = tt.Render()
 	case 3, 8, 10, 14, 15:
 		out, err = texttable.Render(t)
 	case 11:
@@ -106,12 +117,12 @@ func vfScenario(sc int, a string) (string, bool) {
 func VerifC16_independent() {
 	a1 := vfString("a1", 1, vfTXT)
 	a2 := vfString("a2", 1, vfTXT)
-	s1 := vfChoice("scenario1", 16)
+	s1 := vfChoice("scenario1", 18)
 	s2 := 0
 	if vfTier() == 1 {
-		s2 = vfChoice("scenario2", 16)
+		s2 = vfChoice("scenario2", 18)
 	} else {
-		s2 = []int{3, 6, 7, 8, 1, 12, 0, 15}[vfChoice("scenario2", 8)]
+		s2 = []int{3, 6, 7, 8, 1, 12, 0, 15, 2}[vfChoice("scenario2", 9)]
 	}
 	var o1, o2 string
 	var e1, e2 bool
